@@ -39,4 +39,4 @@ check = make_check('C04', _oracle, _nt)
 def streams(tier):
     n = 8 if tier == 'quick' else 12
     return [Stream('both-schedulers', check, strategy=lambda: sched.any_case(max_tasks=n, min_tasks=1),
-                   examples={'quick': 10000, 'thorough': 100000})]
+                   examples={'quick': 6000, 'thorough': 100000})]
